@@ -1032,6 +1032,9 @@ func runSysBatch(sb sysBatch, sec *vh.Section) {
 	dir := lrsrv.NewDir()
 	defer os.RemoveAll(dir)
 	srv, err := lrsrv.Start(dir, lrsrv.Opts{})
+	for try := 0; err != nil && try < 10 && strings.Contains(err.Error(), "address already in use"); try++ {
+		srv, err = lrsrv.Start(dir, lrsrv.Opts{}) // the probed free port was taken by another process meanwhile
+	}
 	if err != nil {
 		res.Note("system: %v", err)
 		return
